@@ -7,25 +7,32 @@ import (
 	"encoding/json"
 	"flag"
 	"fmt"
+	"os"
 	"sync"
+	"time"
 
 	"verif/props/c14/scen"
 )
 
 func main() {
 	reps := flag.Int("reps", 200, "repetitions per scenario")
+	stall := flag.Duration("stall", 2*time.Minute, "give up (no verdict) when one execution takes longer than this")
 	flag.Parse()
 	type out struct {
 		Runs      int            `json:"runs"`
 		Outcomes  map[string]int `json:"outcomes"`
 		Violation string         `json:"violation,omitempty"`
 		Scenario  string         `json:"scenario,omitempty"`
+		Stalled   string         `json:"stalled,omitempty"`
 	}
 	o := out{Outcomes: map[string]int{}}
-	for _, sc := range append(scen.All(), scen.Big()...) {
+	for _, sc := range append(append(scen.All(), scen.Big()...), scen.Wide()...) {
 		n := *reps
 		if sc.Grow > 0 {
 			n = n/30 + 1 // building a large log dominates: a few repetitions only
+		}
+		if len(sc.Threads) > 8 {
+			n = n/10 + 1
 		}
 		for i := 0; i < n; i++ {
 			var wg sync.WaitGroup
@@ -33,7 +40,21 @@ func main() {
 				wg.Add(1)
 				go func() { defer wg.Done(); f() }()
 			}
-			env, res := scen.Exec(sc, spawn, wg.Wait, nil)
+			var env *scen.Env
+			var res []scen.Res
+			done := make(chan struct{})
+			go func() {
+				env, res = scen.Exec(sc, spawn, wg.Wait, nil)
+				close(done)
+			}()
+			select {
+			case <-done:
+			case <-time.After(*stall):
+				o.Stalled = fmt.Sprintf("a free-running execution of scenario %s did not end within %v; the pass stopped there", sc.Name, *stall)
+				b, _ := json.Marshal(o)
+				fmt.Println(string(b))
+				os.Exit(0)
+			}
 			o.Runs++
 			msg, class := scen.Check(sc, env, res)
 			if msg != "" && o.Violation == "" {
